@@ -25,6 +25,7 @@ LEVEL_TEXT = (
     "close; (R3) no handler on a load path swallows an exception. Byte-level truncation inside one file is not decided."
     ' Per-file replacement (temp + os.replace of every file) without a protocol over the folder is reported as what it is: it turns a loud failure into a silent hybrid.'
     " Reader options under which a file cut short parses as valid smaller data (read_csv names=, on_bad_lines other than 'error') are findings of the loud-load rule."
+    " The append-mode rule of C04 is included (a table extended in place is half old, half new after a crash). `with <sqlite3 connection>:` is read as the transaction block it is; DROP TABLE + CREATE TABLE empties the table only inside an explicit BEGIN (sqlite3 opens its implicit transaction for DML only)."
 )
 TECHNIQUE = "ordered effect extraction (write plan) vs commit-protocol detection; CFG with exceptional edges for transaction discipline"
 
